@@ -386,8 +386,11 @@ func ProcessIndexRequestPle(tsNow uint64, indexNameIn string, flush bool,
 	}
 
 	for _, ple := range pleArray {
-		ple.SetTimestamp(utils.ExtractTimeStamp(ple.GetRawJson(), &tsKey))
-		if ple.GetTimestamp() == 0 {
+		// keep a time the protocol decoder has already set (OTLP logs: time_unix_nano) when the
+		// document has no value under the timestamp key
+		if ts := utils.ExtractTimeStamp(ple.GetRawJson(), &tsKey); ts != 0 {
+			ple.SetTimestamp(ts)
+		} else if ple.GetTimestamp() == 0 {
 			ple.SetTimestamp(tsNow)
 		}
 	}
